@@ -988,7 +988,10 @@ def _c07_call(c, model, kinds, data, targets, weight, opt, srec, trec, p_s, p_e,
         if rs_["fault"] is None and rs_["honest"] is not None:
             sv = np.linalg.svd(WJ, compute_uv=False)
             rank_gap = sv[sv > 1e-10 * sv[0]]
-            if len(rank_gap) and rank_gap[-1] / sv[0] > 1e-7:
+            # singular values between "exactly zero" (padding / unused columns) and the reference's cut-off are kept by
+            # torch.linalg.pinv (cut-off max(m,n) eps) and dropped here: the rank is ambiguous, no verdict
+            ambiguous = bool(((sv <= 1e-10 * sv[0]) & (sv > 1e-18 * sv[0])).any())
+            if len(rank_gap) and rank_gap[-1] / sv[0] > 1e-7 and not ambiguous:
                 Dref = np.linalg.pinv(WJ, rcond=1e-10) @ (-WR)
                 err = float(np.abs(rs_["honest"].double().numpy().reshape(-1) - Dref).max())
                 if not (err <= 1e-5 * TS * (1 + np.abs(Dref).max()) / min(1.0, rank_gap[-1] / sv[0] * 1e3)):
